@@ -8,13 +8,9 @@
    model side - where the implementation iterates a set, the check sweeps PYTHONHASHSEED. *)
 From Coq Require Import ZArith QArith List Bool Permutation Arith.
 From VL Require Import Prelude.Sx Prelude.PyDict Prelude.GDict Model.GetNBest Model.HighestAverages Model.Condorcet Model.Convert
-<<<<<<< HEAD
      Proofs.GetNBest_proofs Proofs.QOrd Proofs.Order_proofs Proofs.Convert_proofs Proofs.HA_proofs Proofs.Divisor_proofs Proofs.HAPerm_proofs Proofs.HARename_proofs
      Proofs.Condorcet_proofs Proofs.CopelandMono_proofs Proofs.Schulze_proofs Proofs.GnbSim_proofs Proofs.CondorcetOrder_proofs.
-=======
-     Proofs.GetNBest_proofs Proofs.QOrd Proofs.Order_proofs Proofs.Convert_proofs Proofs.HA_proofs Proofs.Divisor_proofs Proofs.HAPerm_proofs Proofs.HARename_proofs.
 From VL Require Import Model.Quota Model.QuotaDistributor Proofs.QDOrder_proofs Model.STV Proofs.STVOrder_proofs.
->>>>>>> w2-c10b
 Import ListNotations.
 Close Scope Q_scope.
 Close Scope Z_scope.
@@ -287,7 +283,6 @@ Print Assumptions C10_rename.
 Print Assumptions C10_ballot_order.
 Print Assumptions C10_highest_averages_order.
 Print Assumptions C10_highest_averages_rename.
-<<<<<<< HEAD
 Print Assumptions C10_condorcet_tied_members.
 Print Assumptions C10_condorcet_unique_position.
 Print Assumptions C10_condorcet_pget_order.
@@ -303,9 +298,7 @@ Print Assumptions C10_condorcet_smith_order.
 Print Assumptions C10_condorcet_schwartz_order_refuted.
 Print Assumptions C10_condorcet_ranked_pairs_order.
 Print Assumptions C10_condorcet_ranked_pairs_order_refuted.
-=======
 Print Assumptions C10_quota_distributor_order.
 Print Assumptions C10_largest_remainder_order.
 Print Assumptions C10_quota_fn_ext.
 Print Assumptions C10_stv_order.
->>>>>>> w2-c10b
